@@ -51,6 +51,7 @@ def dt_of(d):
 
 
 class DatePairs(Sub):
+    ambient = True
     """exhaustive ordered date pairs in windows containing a leap year, both helper backends, direct calls"""
     name = "date_pairs_exhaustive"
     kind = "enum"
@@ -140,6 +141,7 @@ def interval_components(iv):
 
 
 class DateTimePairs(Sub):
+    ambient = True
     name = "datetime_pairs"
     n = {"quick": 20000, "thorough": 400000}
     shards = {"quick": 3, "thorough": 8}
@@ -263,6 +265,7 @@ def cross_case(draw):
 
 
 class CrossZone(Sub):
+    ambient = True
     name = "cross_zone"
     backends = ("rust",)
     n = {"quick": 12000, "thorough": 300000}
